@@ -42,20 +42,29 @@ package traversal
 //
 // X1. Shared skip/limit filters and counters under concurrency. ONE FilteredSkipLimit filter (every
 //     (skip, limit) with skip in {0,1,W} and limit in {0,1,W-1,W,W+1}) and ONE atomics.NewCounter (both
-//     instantiations that exist in the repository, uint32 and uint64, maximum in {0,1,W-1,W,W+1}) is
-//     hammered by W in {1,2,8} goroutines that leave a spinning start barrier together; every goroutine
-//     makes ceil((skip+limit)/W)+2 calls with segments of its own. Two item mixes: all items collectable,
-//     and every third item not collectable (filter returns canCollect=false). tvTrials(bound) fresh
-//     filters/counters per configuration and W>1 (bound "1": 4000, bound "2": 20000; W=1: 50).
+//     instantiations that exist in the repository, uint32 and uint64, maximum in {0,1,W-1,W,W+1,50W,50W+1}) is
+//     hammered by W in {1,2,8} goroutines; every goroutine makes ceil((skip+limit)/W)+2 calls (half as many
+//     again in the mixed item mix) with segments of its own. Two item mixes: all items collectable, and
+//     every third item not collectable (filter answers canCollect=false). A trial is one FRESH filter or
+//     counter; trials run in batches of 250 on W goroutines which meet at a spinning start barrier before
+//     EVERY trial, so all W enter the same fresh filter together. Trials per configuration and W>1: bound
+//     "1": 2000, bound "2": 20000 (W=1: 250), twice as many for a bare counter - 54 filter and 26 counter
+//     configurations with W>1 (bound "1": 108000 + 104000 trials).
 //     ORACLE (a correct implementation satisfies it for EVERY schedule, so there is no tolerance): with C
 //     collectable calls, exactly min(skip,C) calls are skipped (returned shouldDescend, visitor not run),
 //     exactly min(limit, C-min(skip,C)) calls (all of the remainder when limit=0) run the visitor - never one
 //     more, never one less -, every other collectable call is rejected, a non-collectable call never runs
 //     the visitor and returns its shouldDescend, and the visitor runs at most once per call. A counter with
 //     maximum m answers false exactly min(m, calls) times and true ever after.
-//     A check-then-increment counter (Load; compare; Add) overshoots in a measured 20-60 % of the W=8 trials
-//     of ONE configuration with limit>=W-1 on this 16 CPU machine (see the mutation report), so over the
-//     4000 x 30 such trials of bound "1" the chance of missing it is far below 1e-1000.
+//     POWER: a check-then-increment counter (Load; compare; Add instead of the CAS loop, both instances) was
+//     measured with VERIF_X17_STATS=1 (diagnostics only: prints the deviating trials per configuration and
+//     runs every trial) on 16 CPUs. Bound "1", load average 14: 3000-8900 of the 100000 filter trials with
+//     W>1 and skip+limit>0 deviate, 3800-6400 of the 44000 bare uint64 counter trials with W>1 and maximum>0,
+//     3600-5800 of the 44000 bare uint32 ones (single configurations: 0 to 34 % of their trials). With a
+//     quarter of these trial counts at load averages 40-80: 870-970 of 36000 (uint64 mutated), 150-1900 of
+//     12000 (uint32 mutated, bare counter trials only). Missing the defect needs every one of these trials to
+//     come out right: with an expected number of deviating trials >= 600 (4 x 150) the probability is below
+//     e^-600 < 1e-260.
 //     Sequential semantics, exhaustive: every sequence of up to 5 (bound "2": 6) filter answers
 //     (canCollect, shouldDescend) x skip, limit in {0,1,2}; same oracle; the return value of a call is
 //     checked against shouldDescend except for limit-rejected calls (not specified).
@@ -87,7 +96,8 @@ package traversal
 //                          gives up the branch; work in flight below it carries on), terminals are detached.
 //     ORACLE: BreadthFirst returns nil (in particular no ops.ErrGraphQueryMemoryLimit), the visit multiset
 //     is the sequential one (filter-detach: the walks that avoid S after the root), the root's SizeOf()
-//     afterwards lies in [own(root), size of the complete tree] and equals own(root) for terminal-prune.
+//     afterwards lies in [size of the root before the run, size of the complete tree] and equals own(root)
+//     for terminal-prune.
 //
 // Known deviation classes (switched on by naming them in VERIF_KNOWN, "|"-separated; counted under
 // known_deviation_hits instead of failures; nothing is suppressed without the variable):
@@ -459,7 +469,6 @@ func tvIsCtxErr(err error) bool {
 	return errors.Is(err, context.Canceled) || errors.Is(err, context.DeadlineExceeded) || errors.Is(err, graph.ErrContextTimedOut)
 }
 
-
 // ---------------------------------------------------------------------------------------------------
 // EXTENSION X17
 // ---------------------------------------------------------------------------------------------------
@@ -469,11 +478,22 @@ type tvExt struct {
 	hits     map[string]int
 	examples map[string][]string
 	sub      map[string]int
+
+	perSymptom map[string]int
 }
 
+// hit counts a known deviation and keeps at most 2 examples per class and symptom (the symptom is the start
+// of the message after the input description).
 func (x *tvExt) hit(class, msg string) {
 	x.hits[class]++
-	if len(x.examples[class]) < 2 {
+	symptom := msg
+	if i := strings.LastIndex(msg, ": "); i >= 0 {
+		symptom = msg[i+2:]
+	}
+	if f := strings.Fields(symptom); len(f) > 2 {
+		symptom = strings.Join(f[:2], " ")
+	}
+	if x.perSymptom[class+"/"+symptom]++; x.perSymptom[class+"/"+symptom] <= 2 {
 		x.examples[class] = append(x.examples[class], msg)
 	}
 }
@@ -497,28 +517,34 @@ type tvCallRec struct {
 	ret         bool
 }
 
-// tvStartBarrier releases all workers together: they announce themselves and then spin on a flag.
-type tvStartBarrier struct {
-	ready atomic.Int32
-	start atomic.Bool
-}
+// tvBatch runs job(trial, w) for trial = 0..trials-1 on W goroutines. Before EVERY trial the W goroutines meet
+// at a spinning barrier of that trial (the start barrier), so all of them enter job(trial, .) together.
+// The wait is bounded (tvBarrierSpins polls, some 10 microseconds): when the operating system has descheduled
+// a worker the others go on without it and it catches up later. The barrier only serves the power of the
+// test - the oracle holds for every schedule -, and an unbounded spin barrier costs milliseconds per stall
+// on an oversubscribed machine.
+const tvBarrierSpins = 4000
 
-func (b *tvStartBarrier) wait() {
-	b.ready.Add(1)
-	for spins := 0; !b.start.Load(); spins++ {
-		if spins > 20000 {
-			runtime.Gosched()
-		}
+func tvBatch(workers, trials int, job func(trial, w int)) {
+	type padded struct {
+		n atomic.Int32
+		_ [60]byte
 	}
-}
-
-func (b *tvStartBarrier) release(workers int) {
-	for spins := 0; b.ready.Load() != int32(workers); spins++ {
-		if spins > 200 {
-			runtime.Gosched()
-		}
+	arrive := make([]padded, trials)
+	var wg sync.WaitGroup
+	for w := 0; w < workers; w++ {
+		wg.Add(1)
+		go func(w int) {
+			defer wg.Done()
+			for trial := 0; trial < trials; trial++ {
+				arrive[trial].n.Add(1)
+				for spins := 0; arrive[trial].n.Load() < int32(workers) && spins < tvBarrierSpins; spins++ {
+				}
+				job(trial, w)
+			}
+		}(w)
 	}
-	b.start.Store(true)
+	wg.Wait()
 }
 
 func tvClip(total, skip, limit int) (skipped, accepted int) {
@@ -533,145 +559,167 @@ func tvClip(total, skip, limit int) (skipped, accepted int) {
 	return
 }
 
+const tvBatchSize = 250
+
 func tvConcurrentSkipLimit(x *tvExt, trials int, failNow func(class, msg string)) {
 	node := graph.NewNode(1, nil, graph.StringKind("n"))
+	stats := os.Getenv("VERIF_X17_STATS") != "" // diagnostics: run every trial and print the deviating trials per configuration
 	for _, workers := range []int{1, 2, 8} {
 		n := trials
 		if workers == 1 {
-			n = 50
+			n = tvBatchSize
 		}
-		limits := map[int]bool{}
-		for _, limit := range []int{0, 1, workers - 1, workers, workers + 1} {
-			if limit >= 0 {
-				limits[limit] = true
+		var limits, skips []int
+		for _, v := range []int{0, 1, workers - 1, workers, workers + 1} {
+			if v >= 0 && !tvContains(limits, v) {
+				limits = append(limits, v)
 			}
 		}
-		skips := map[int]bool{0: true, 1: true, workers: true}
-		for limit := range limits {
-			// (a) the counter itself, both instantiations
+		for _, v := range []int{0, 1, workers} {
+			if !tvContains(skips, v) {
+				skips = append(skips, v)
+			}
+		}
+		// (a) the counter itself, both instantiations; the two large maxima keep all W goroutines busy on the
+		// counter at the moment it saturates (a bare counter call takes nanoseconds, so with a small maximum
+		// the calls of different goroutines hardly ever overlap)
+		for _, limit := range append(append([]int{}, limits...), 50*workers, 50*workers+1) {
 			for _, width := range []int{32, 64} {
 				per := limit/workers + 2
+				if limit > workers+1 {
+					per = 2*limit/workers + 2
+				}
+				want := limit
+				if workers*per < want {
+					want = workers * per
+				}
 				bad := 0
-				for trial := 0; trial < n && bad < 3; trial++ {
-					var counter func() bool
-					if width == 32 {
-						counter = atomics.NewCounter(uint32(limit))
-					} else {
-						counter = atomics.NewCounter(uint64(limit))
+				for done := 0; done < 2*n && (bad < 3 || stats); done += tvBatchSize { // twice the trials of a filter configuration
+					counters := make([]func() bool, tvBatchSize)
+					falses := make([]atomic.Int32, tvBatchSize)
+					for i := range counters {
+						if width == 32 {
+							counters[i] = atomics.NewCounter(uint32(limit))
+						} else {
+							counters[i] = atomics.NewCounter(uint64(limit))
+						}
 					}
-					var (
-						barrier tvStartBarrier
-						wg      sync.WaitGroup
-						falses  atomic.Int64
-					)
-					for w := 0; w < workers; w++ {
-						wg.Add(1)
-						go func() {
-							defer wg.Done()
-							barrier.wait()
-							for j := 0; j < per; j++ {
-								if !counter() {
-									falses.Add(1)
-								}
+					tvBatch(workers, tvBatchSize, func(trial, w int) {
+						for j := 0; j < per; j++ {
+							if !counters[trial]() {
+								falses[trial].Add(1)
 							}
-						}()
-					}
-					barrier.release(workers)
-					wg.Wait()
-					x.sub["concurrent_counter_trials"]++
-					want := limit
-					if workers*per < want {
-						want = workers * per
-					}
-					if got := int(falses.Load()); got != want || !counter() {
-						bad++
-						failNow("skiplimit-concurrent", fmt.Sprintf("atomics.NewCounter[uint%d](%d) called %d times by each of %d goroutines released together (trial %d): answered false %d times, want exactly %d, and true afterwards", width, limit, per, workers, trial, got, want))
+						}
+					})
+					for i := range counters {
+						x.sub["concurrent_counter_trials"]++
+						if got := int(falses[i].Load()); got != want || !counters[i]() {
+							if bad++; bad <= 3 {
+								failNow("skiplimit-concurrent", fmt.Sprintf("atomics.NewCounter[uint%d](%d) called %d times by each of %d goroutines released together (trial %d): answered false %d times, want exactly %d, and true afterwards", width, limit, per, workers, done+i, got, want))
+							}
+						}
 					}
 				}
+				if stats {
+					fmt.Printf("X17-STATS counter uint%d W=%d max=%d: %d of %d trials deviate\n", width, workers, limit, bad, 2*n)
+				}
 			}
+		}
+		for _, limit := range limits {
 			// (b) the filter
-			for skip := range skips {
+			for _, skip := range skips {
 				for _, mixed := range []bool{false, true} {
 					per := (skip+limit+workers-1)/workers + 2
 					if mixed {
 						per += per / 2
 					}
-					recs := make([][]tvCallRec, workers)
-					segs := make([][]*graph.PathSegment, workers)
+					recs := make([][][]tvCallRec, tvBatchSize)
+					segs := make([][][]*graph.PathSegment, tvBatchSize)
 					collectable := 0
-					for w := range recs {
-						recs[w] = make([]tvCallRec, per)
-						segs[w] = make([]*graph.PathSegment, per)
-						for j := range segs[w] {
-							segs[w][j] = graph.NewRootPathSegment(node)
-							segs[w][j].Tag = &recs[w][j]
-							recs[w][j].collectable = !mixed || (w+j)%3 != 2
-							if recs[w][j].collectable {
-								collectable++
+					for i := range recs {
+						recs[i] = make([][]tvCallRec, workers)
+						segs[i] = make([][]*graph.PathSegment, workers)
+						for w := range recs[i] {
+							recs[i][w] = make([]tvCallRec, per)
+							segs[i][w] = make([]*graph.PathSegment, per)
+							for j := range segs[i][w] {
+								segs[i][w][j] = graph.NewRootPathSegment(node)
+								segs[i][w][j].Tag = &recs[i][w][j]
+								recs[i][w][j].collectable = !mixed || (w+j)%3 != 2
+								if i == 0 && recs[i][w][j].collectable {
+									collectable++
+								}
 							}
 						}
 					}
 					wantSkipped, wantAccepted := tvClip(collectable, skip, limit)
 					bad := 0
-					for trial := 0; trial < n && bad < 3; trial++ {
-						for w := range recs {
-							for j := range recs[w] {
-								recs[w][j].visits, recs[w][j].ret = 0, false
-							}
-						}
-						filter := FilteredSkipLimit(func(next *graph.PathSegment) (bool, bool) {
-							return next.Tag.(*tvCallRec).collectable, true
-						}, func(next *graph.PathSegment) {
-							atomic.AddInt32(&next.Tag.(*tvCallRec).visits, 1)
-						}, skip, limit)
-						var (
-							barrier tvStartBarrier
-							wg      sync.WaitGroup
-						)
-						for w := 0; w < workers; w++ {
-							wg.Add(1)
-							go func(w int) {
-								defer wg.Done()
-								barrier.wait()
-								for j := range segs[w] {
-									recs[w][j].ret = filter(segs[w][j])
+					for done := 0; done < n && (bad < 3 || stats); done += tvBatchSize {
+						filters := make([]SegmentFilter, tvBatchSize)
+						for i := range filters {
+							for w := range recs[i] {
+								for j := range recs[i][w] {
+									recs[i][w][j].visits, recs[i][w][j].ret = 0, false
 								}
-							}(w)
+							}
+							filters[i] = FilteredSkipLimit(func(next *graph.PathSegment) (bool, bool) {
+								return next.Tag.(*tvCallRec).collectable, true
+							}, func(next *graph.PathSegment) {
+								atomic.AddInt32(&next.Tag.(*tvCallRec).visits, 1)
+							}, skip, limit)
 						}
-						barrier.release(workers)
-						wg.Wait()
-						x.sub["concurrent_filter_trials"]++
-						accepted, skipped, rejected, wrong := 0, 0, 0, ""
-						for w := range recs {
-							for j := range recs[w] {
-								rec := &recs[w][j]
-								switch {
-								case rec.visits > 1:
-									wrong = fmt.Sprintf("the visitor ran %d times for one call", rec.visits)
-								case !rec.collectable && (rec.visits != 0 || !rec.ret):
-									wrong = fmt.Sprintf("a call whose filter answered canCollect=false, shouldDescend=true ran the visitor %d times and returned %v", rec.visits, rec.ret)
-								case !rec.collectable:
-								case rec.visits == 1:
-									accepted++
-									if !rec.ret {
-										wrong = "a collected call returned false although its filter answered shouldDescend=true"
+						tvBatch(workers, tvBatchSize, func(trial, w int) {
+							for j, segment := range segs[trial][w] {
+								recs[trial][w][j].ret = filters[trial](segment)
+							}
+						})
+						for i := range filters {
+							x.sub["concurrent_filter_trials"]++
+							accepted, skipped, rejected, wrong := 0, 0, 0, ""
+							for w := range recs[i] {
+								for j := range recs[i][w] {
+									rec := &recs[i][w][j]
+									switch {
+									case rec.visits > 1:
+										wrong = fmt.Sprintf("; the visitor ran %d times for one call", rec.visits)
+									case !rec.collectable && (rec.visits != 0 || !rec.ret):
+										wrong = fmt.Sprintf("; a call whose filter answered canCollect=false, shouldDescend=true ran the visitor %d times and returned %v", rec.visits, rec.ret)
+									case !rec.collectable:
+									case rec.visits == 1:
+										accepted++
+										if !rec.ret {
+											wrong = "; a collected call returned false although its filter answered shouldDescend=true"
+										}
+									case rec.ret:
+										skipped++
+									default:
+										rejected++
 									}
-								case rec.ret:
-									skipped++
-								default:
-									rejected++
+								}
+							}
+							if wrong != "" || accepted != wantAccepted || skipped != wantSkipped || rejected != collectable-wantAccepted-wantSkipped {
+								if bad++; bad <= 3 {
+									failNow("skiplimit-concurrent", fmt.Sprintf("FilteredSkipLimit(skip=%d, limit=%d) shared by %d goroutines released together, %d calls each, %d collectable calls in all (trial %d): %d collected, %d skipped, %d rejected; want exactly %d collected, %d skipped, %d rejected%s", skip, limit, workers, per, collectable, done+i, accepted, skipped, rejected, wantAccepted, wantSkipped, collectable-wantAccepted-wantSkipped, wrong))
 								}
 							}
 						}
-						if wrong != "" || accepted != wantAccepted || skipped != wantSkipped || rejected != collectable-wantAccepted-wantSkipped {
-							bad++
-							failNow("skiplimit-concurrent", fmt.Sprintf("FilteredSkipLimit(skip=%d, limit=%d) shared by %d goroutines released together, %d calls each, %d collectable calls in all (trial %d): %d collected, %d skipped, %d rejected; want exactly %d collected, %d skipped, %d rejected %s", skip, limit, workers, per, collectable, trial, accepted, skipped, rejected, wantAccepted, wantSkipped, collectable-wantAccepted-wantSkipped, wrong))
-						}
+					}
+					if stats {
+						fmt.Printf("X17-STATS filter W=%d skip=%d limit=%d mixed=%v: %d of %d trials deviate\n", workers, skip, limit, mixed, bad, n)
 					}
 				}
 			}
 		}
 	}
+}
+
+func tvContains(list []int, v int) bool {
+	for _, e := range list {
+		if e == v {
+			return true
+		}
+	}
+	return false
 }
 
 // tvSequentialSkipLimit: every sequence of filter answers up to maxLen x skip, limit in {0,1,2}, one goroutine.
@@ -768,7 +816,9 @@ func tvSizeAccounting(x *tvExt, maxSegments, maxDetach int, failNow func(class, 
 		leaf := make([]size.Size, k)
 		segs[0] = graph.NewRootPathSegment(nodes[0])
 		leaf[0] = segs[0].SizeOf()
-		where := func() string { return fmt.Sprintf("tree parents=%v (segment i>0 hangs below segment parents[i], segment 0 is the root) Detach sequence %v", parents[1:], seq) }
+		where := func() string {
+			return fmt.Sprintf("tree parents=%v (segment i>0 hangs below segment parents[i], segment 0 is the root) Detach sequence %v", parents[1:], seq)
+		}
 		for i := 1; i < k; i++ {
 			before := make([]size.Size, i)
 			for j := 0; j < i; j++ {
@@ -920,21 +970,23 @@ func tvSizeAccounting(x *tvExt, maxSegments, maxDetach int, failNow func(class, 
 			sequences(append(append([]int{}, seq...), target))
 		}
 	}
-	var trees func()
-	trees = func() {
-		x.sub["size_accounting_trees"]++
-		sequences(nil)
-		if len(parents) == maxSegments {
+	var trees func(segments int)
+	trees = func(segments int) {
+		if len(parents) == segments {
+			x.sub["size_accounting_trees"]++
+			sequences(nil)
 			return
 		}
 		for p := 0; p < len(parents); p++ {
 			parents = append(parents, p)
-			trees()
+			trees(segments)
 			parents = parents[:len(parents)-1]
 		}
 	}
-	parents = []int{-1}
-	trees()
+	for segments := 1; segments <= maxSegments; segments++ { // smallest trees first
+		parents = []int{-1}
+		trees(segments)
+	}
 }
 
 func TestVerifBoundedTraversal(t *testing.T) {
@@ -972,7 +1024,7 @@ func TestVerifBoundedTraversal(t *testing.T) {
 		}
 		failed++
 	}
-	ext := &tvExt{known: tvKnownFromEnv(), hits: map[string]int{}, examples: map[string][]string{}, sub: map[string]int{}}
+	ext := &tvExt{known: tvKnownFromEnv(), hits: map[string]int{}, examples: map[string][]string{}, sub: map[string]int{}, perSymptom: map[string]int{}}
 	// failIn: a failure of an input that belongs to the deviation class (counted as a known deviation when
 	// the class is named in VERIF_KNOWN, a failure otherwise)
 	failIn := func(class string, r tvRun, format string, args ...any) {
@@ -1122,10 +1174,10 @@ func TestVerifBoundedTraversal(t *testing.T) {
 						if missing, extra := tvDiff(o.log, wantP); len(missing) > 0 || len(extra) > 0 {
 							fail(r, "visited segments differ from the sequential expansion: lost %v duplicated/foreign %v", missing, extra)
 						}
-						if o.fin < rootOwn || o.fin > final {
-							report(r, "path tree reports %d bytes after the run, outside [%d (the root alone), %d (complete tree without detaches)]", o.fin, rootOwn, final)
+						if o.fin < initial || o.fin > final {
+							report(r, "path tree reports %d bytes after the run, outside [%d (the root before the run), %d (complete tree without detaches)]", o.fin, initial, final)
 						} else if pr.policy == tvPolTerminalPrune && expansions > 1 && o.fin != rootOwn {
-							report(r, "every segment but the root was detached, yet the path tree reports %d bytes, want %d (the root alone)", o.fin, rootOwn)
+							report(r, "every segment but the root was detached, yet the path tree reports %d bytes, want %d (the root and its branch slice)", o.fin, rootOwn)
 						}
 					}
 				}
@@ -1200,13 +1252,17 @@ func TestVerifBoundedTraversal(t *testing.T) {
 		extFailed++
 		failed++
 	}
-	trials, seqLen, maxSegments := 4000, 5, 6
+	trials, seqLen, maxSegments := 2000, 5, 6
 	if os.Getenv("VERIF_BOUND") == "2" {
 		trials, seqLen, maxSegments = 20000, 6, 7
 	}
+	t0 := time.Now()
 	tvSizeAccounting(ext, maxSegments, 3, failNow)
+	t1 := time.Now()
 	tvSequentialSkipLimit(ext, seqLen, failNow)
+	t2 := time.Now()
 	tvConcurrentSkipLimit(ext, trials, failNow)
+	extSeconds := map[string]float64{"size_accounting": t1.Sub(t0).Seconds(), "sequential_filter": t2.Sub(t1).Seconds(), "concurrent_filter_and_counter": time.Since(t2).Seconds()}
 	for _, c := range ext.sub {
 		cases += c
 	}
@@ -1224,6 +1280,7 @@ func TestVerifBoundedTraversal(t *testing.T) {
 		"graphs":                  total,
 		"cases":                   cases,
 		"cases_by_extension":      ext.sub,
+		"seconds_by_extension":    extSeconds,
 		"failed":                  failed,
 		"exhaustive":              hangs <= 3,
 		"failures":                failures,
